@@ -24,6 +24,8 @@ CONSTANTS
   MaxParams,  \* plumb: parameters 2..MaxParams
   MaxOuter,   \* join: outer length 0..MaxOuter
   MaxSeq,     \* mem: length of the call sequences
+  MaxSeqDep,  \* mem: length of the call sequences when f re-enters the memoized function
+  MemDeps,    \* mem: which dependency functions: "none", "few", "all"
   MemRots     \* mem: parameter kind rotations
 
 VARIABLES cfg, s
@@ -172,23 +174,36 @@ JoinStrCfg(strs, nilin) ==
 JoinStrCfgs(x) == {JoinStrCfg(ss, FALSE) : ss \in UNION {[1..n -> StrChoices] : n \in 0..MaxOuter}} \cup {JoinStrCfg(<<>>, TRUE)}
 
 \* ---- C18 mem ------------------------------------------------------------------
-\* parameter kinds: ==-comparable (int, str, st, ar) and not (pt, ssl = []string, mp); result kinds: all
-MemKinds == <<"int", "ssl", "str", "pt", "st", "mp", "ar">>
+\* parameter kinds: ==-comparable (int, str, st, ar) and not: pt = *St, ssl = []string, mp = map[string]int whose string
+\* contents "Aa" / "BB" collide under the derived 31-polynomial hash, and isl = []int, ip2 = *struct{A, B int},
+\* sp2 = []struct{A, B int}, mpi = map[int]int whose integer contents {1,0} / {0,31} collide; result kinds: all
+MemKinds == <<"int", "ssl", "str", "pt", "isl", "st", "mp", "ip2", "ar", "sp2", "mpi">>
 MemKindAt(rot, p) == MemKinds[((rot + p) % Len(MemKinds)) + 1]
 Classes(p) == IF p = 0 THEN {1} ELSE {1, 2, 3}
 \* class c as a tuple of per-parameter tokens: the classes differ in one position only
+\* (tokens 1 and 2 of every non-comparable kind hash alike, so do the tuples)
 ClassArgs(p, c) ==
   IF p = 1 THEN <<c>>
   ELSE [j \in 1..p |-> IF (c = 2 /\ j = p) \/ (c = 3 /\ j = 1) THEN 2 ELSE 1]
-MemCfg(p, r, rot) ==
+\* re-entrancy: f(c) calls the memoized function on dep[c]; acyclic, so nesting depth <= 2
+DepStep(d, c) == IF c = 0 THEN 0 ELSE d[c]
+Acyclic(d) == \A c \in DOMAIN d : DepStep(d, DepStep(d, DepStep(d, c))) = 0
+NoDep(p) == [c \in Classes(p) |-> 0]
+FewDeps == {<<2, 0, 0>>, <<2, 3, 0>>, <<0, 1, 1>>, <<3, 0, 2>>}
+Deps(p) ==
+  IF p = 0 \/ MemDeps = "none" THEN {NoDep(p)}
+  ELSE IF MemDeps = "few" THEN {NoDep(p)} \cup FewDeps
+  ELSE {d \in [Classes(p) -> 0..3] : Acyclic(d)}
+MemCfg(p, r, rot, dep) ==
   LET kp == [j \in 1..p |-> MemKindAt(rot, j - 1)]
       kr == [j \in 1..r |-> KindAt(rot, j - 1)] IN
-  [p |-> p, r |-> r, rot |-> rot, kinds |-> <<kp, kr>>,
+  [p |-> p, r |-> r, rot |-> rot, kinds |-> <<kp, kr>>, dep |-> dep,
    A |-> [c \in Classes(p) |-> ClassArgs(p, c)],
    F |-> [c \in Classes(p) |-> Toks(kr, 10 * c)]]
-MemCfgs(x) == {MemCfg(p, r, rot) : p \in 0..MaxAr, r \in 0..MaxAr, rot \in MemRots}
+MemCfgs(x) == UNION {{MemCfg(p, r, rot, dep) : r \in 0..MaxAr, rot \in MemRots, dep \in Deps(p)} : p \in 0..MaxAr}
+\* plain sequences up to MaxSeq calls; with re-entrancy (each call may nest two more) MaxSeqDep
 MemFreeEnv(c, st) ==
-  IF Len(st.script) >= MaxSeq THEN {}
+  IF Len(st.script) >= (IF c.dep = NoDep(c.p) THEN MaxSeq ELSE MaxSeqDep) THEN {}
   ELSE {[c |-> cl, rep |-> rp] : cl \in DOMAIN c.A, rp \in (IF c.p = 0 THEN {1} ELSE {1, 2})}
 
 -----------------------------------------------------------------------------
